@@ -306,8 +306,8 @@ def core_labels(bits):
     for k, model in enumerate(MODELS):
         real = c08lib.run_real(model, bits)
         msg = real[0][1] if real[0][0] == 'err' else ''
-        if isinstance(msg, str) and msg.startswith('Unknown jump label "'):
-            name = msg[len('Unknown jump label "'):-1]
+        if isinstance(msg, str) and msg.startswith('Unknown jump label '):
+            name = msg[len('Unknown jump label '):]
             ug, uf = WARNED[k]
             if name not in ug and not any(name == lab for lab, _f in uf):
                 return False, {{'clause': 'a run raised Unknown jump label for a label lint did not warn about', 'label': name, 'bits': list(bits),
